@@ -428,6 +428,15 @@ Proof.
   - step_cur.
     + unfold ctor_range. rewrite insert_list_data by (unfold vsize; simpl; lia). unfold ins_spec. simpl. apply app_nil_r.
     + unfold ctor_range. apply insert_list_wf; unfold wf, vsize; simpl; lia.
+  - destruct ((p <=? length (cur_l t)) && (i <? length (cur_l t))) eqn:E; [|exact Logic.I].
+    apply andb_prop in E. destruct E as [E1 E2]. apply Nat.leb_le in E1.
+    step_cur. unfold insert_alias. rewrite insert_list_data, C by lia; reflexivity.
+    unfold insert_alias. apply insert_list_wf; [assumption | lia].
+  - destruct (i <? length (cur_l t)); [|exact Logic.I]. step_cur. rewrite resize_data, C; reflexivity. apply resize_wf, W.
+  - destruct (i <? length (cur_l t)); [|exact Logic.I]. step_cur. rewrite push_data, C; reflexivity. apply push_wf, W.
+  - step_cur.
+    + rewrite insert_list_data by lia. rewrite clear_data. unfold ins_spec. simpl. apply app_nil_r.
+    + apply insert_list_wf; [apply clear_wf, W | lia].
 Qed.
 
 Lemma vrun_refines : forall ops s t, vrel s t -> vinv s ->
@@ -454,49 +463,3 @@ Proof.
   - unfold vinv, wf, vsize. simpl. lia.
 Qed.
 
-(* ---------------------------------------------------------------------------------------------- *)
-(* insert(pos, n, v[i]) — the value argument is a reference into the vector itself (in-capacity path).
-   When the referenced element is not behind the inserted block (i < pos + n) or the right part is
-   not longer than the inserted count, the reference is read before it is overwritten and the call
-   equals the by-value insert. *)
-Lemma insert_fill_alias_partial : forall v pos n i,
-  pos < vsize v -> i < vsize v -> vsize v + n <= vcap v ->
-  (i < pos + n \/ vsize v - pos <= n) ->
-  insert_fill_alias v pos n i = Some (insert_list true v pos (repeat (nth i (vdata v) 0) n)).
-Proof.
-  intros v pos n i Hp Hi Hc G. unfold insert_fill_alias, insert_list, vsize in *.
-  assert ((pos <? length (vdata v)) && (i <? length (vdata v)) && (length (vdata v) + n <=? vcap v) = true) as ->.
-  { rewrite !andb_true_iff. repeat split; [apply Nat.ltb_lt | apply Nat.ltb_lt | apply Nat.leb_le]; assumption. }
-  rewrite repeat_length. simpl negb. simpl andb.
-  assert (pos =? length (vdata v) = false) as -> by (apply Nat.eqb_neq; lia).
-  assert (vcap v <? length (vdata v) + n = false) as -> by (apply Nat.ltb_ge; lia).
-  set (x := nth i (vdata v) 0). set (l := vdata v) in *. set (sz := length l) in *.
-  destruct (sz - pos <=? n) eqn:E.
-  - apply Nat.leb_le in E. f_equal.
-    assert (S1 : skipn (sz - pos) (repeat x n) = repeat x (n - (sz - pos))).
-    { clear. generalize (sz - pos) as k. intros k. revert n. induction k; intros n; simpl.
-      - rewrite Nat.sub_0_r. reflexivity.
-      - destruct n; simpl; [reflexivity | apply IHk]. }
-    assert (F1 : firstn (sz - pos) (repeat x n) = repeat x (sz - pos)).
-    { clear - E. revert E. generalize (sz - pos) as k. intros k. revert n. induction k; intros n E; simpl; [reflexivity|].
-      destruct n; [lia|]. simpl. f_equal. apply IHk. lia. }
-    rewrite S1, F1.
-    set (v1 := push_all v (repeat x (n - (sz - pos)))).
-    set (v2 := push_all v1 (sub pos sz (vdata v1))).
-    assert (X : nth i (vdata v2) 0 = x).
-    { unfold v2, v1. rewrite !push_all_data. fold l. rewrite <- app_assoc. rewrite app_nth1 by (fold sz; lia). reflexivity. }
-    rewrite X. reflexivity.
-  - apply Nat.leb_gt in E. f_equal.
-    destruct G as [G|G]; [|lia].
-    set (v1 := push_all v (sub (sz - n) sz l)).
-    set (d2 := blit (sub pos (sz - n) (vdata v1)) (pos + n) (vdata v1)).
-    assert (Len1 : length (vdata v1) = sz + n).
-    { unfold v1. rewrite push_all_data, app_length, sub_length; fold l; fold sz; lia. }
-    assert (X' : nth i (vdata v1) 0 = x).
-    { unfold v1. rewrite push_all_data. fold l. rewrite app_nth1 by (fold sz; lia). reflexivity. }
-    assert (X : nth i d2 0 = x).
-    { unfold d2, blit. rewrite app_nth1 by (rewrite firstn_length_le; lia).
-      rewrite <- (firstn_skipn (pos + n) (vdata v1)) in X'.
-      rewrite app_nth1 in X' by (rewrite firstn_length_le; lia). exact X'. }
-    rewrite X. reflexivity.
-Qed.
